@@ -431,11 +431,18 @@ impl Incarnation {
 
     async fn shutdown(mut self) {
         self.calls.clear();
+        let trace = std::env::var("VH_TRACE").is_ok();
         if let Some(s) = self.stop.take() {
-            let _ = s.send(());
+            let r = s.send(());
+            if trace {
+                eprintln!("stop sent: {r:?}");
+            }
         }
         if let Some(h) = self.handle.take() {
-            let _ = h.await;
+            let r = h.await;
+            if trace {
+                eprintln!("runner joined: {r:?}");
+            }
         }
     }
 }
@@ -532,6 +539,7 @@ async fn run_case(
     drain().await;
     let mut out = vec![];
     let rctx = ctx::root();
+    let trace = std::env::var("VH_TRACE").is_ok();
     for op in c["ops"].as_array().unwrap() {
         let log_before = eng.0.log.lock().unwrap().len();
         let mut extra: Vec<i128> = vec![];
@@ -567,7 +575,13 @@ async fn run_case(
                 Ok((new_inc, runner)) => {
                     let old = std::mem::replace(&mut inc, new_inc);
                     old.shutdown().await;
+                    if trace {
+                        eprintln!("old incarnation down");
+                    }
                     inc.spawn_runner(runner);
+                    if trace {
+                        eprintln!("new runner spawned");
+                    }
                     json!([1])
                 }
                 Err(_) => json!([0]),
@@ -580,7 +594,13 @@ async fn run_case(
             }
             other => panic!("unknown op {other}"),
         };
+        if trace {
+            eprintln!("op done: {op}");
+        }
         drain().await;
+        if trace {
+            eprintln!("drained");
+        }
         let q = inc.mgr.queued();
         let p = inc.mgr.persisted();
         let head = inc.mgr.head();
@@ -619,6 +639,9 @@ async fn run_case(
                 .get_block(&rctx, validator::BlockNumber(n as u64))
                 .await;
             let after = eng.0.get_calls.load(Ordering::SeqCst);
+            if trace {
+                eprintln!("read {n}");
+            }
             reads.push(match r {
                 Ok(None) => json!({"n": n.to_string(), "code": 0}),
                 Ok(Some(b)) if after == before => json!({"n": n.to_string(), "code": 1,
@@ -641,15 +664,38 @@ async fn run_case(
     json!({"init": true, "ops": out})
 }
 
+fn now_ms() -> u64 {
+    std::time::SystemTime::now()
+        .duration_since(std::time::UNIX_EPOCH)
+        .unwrap()
+        .as_millis() as u64
+}
+
 fn main() {
-    quiet_panics();
+    if std::env::var("VH_LOUD_PANICS").is_err() {
+        quiet_panics();
+    }
     let pool = keys::validator_pool(6);
     let mut cache: HashMap<String, validator::Block> = HashMap::new();
     let rt = tokio::runtime::Builder::new_current_thread()
         .enable_all()
         .build()
         .unwrap();
+    // watchdog: a case that makes no progress for 40 s kills the process (exit code 3); the
+    // driver reports the input as hanging the engine manager.
+    let started = Arc::new(AtomicU64::new(0));
+    {
+        let started = started.clone();
+        std::thread::spawn(move || loop {
+            std::thread::sleep(std::time::Duration::from_millis(250));
+            let t = started.load(Ordering::SeqCst);
+            if t != 0 && now_ms() > t + 40_000 {
+                std::process::exit(3);
+            }
+        });
+    }
     for c in read_cases() {
+        started.store(now_ms(), Ordering::SeqCst);
         let r = {
             let pool = &pool;
             let cache = &mut cache;
